@@ -39,8 +39,10 @@ fn reject<const LL: usize, const LK: usize>(t: &[u8]) {
     b.last_key = last.to_vec();
     b.last_timestamp = last_ts;
     b.buffer = buf.to_vec();
-    b.bytes_since_restart = 3;
-    b.key_value_pairs_since_restart = 1;
+    // arbitrary restart bookkeeping: a restart may or may not be due
+    let (bsr, kvsr) = (t.u64(), t.u64());
+    b.bytes_since_restart = bsr;
+    b.key_value_pairs_since_restart = kvsr;
     // the builder's own ordering decision equals the definition
     let in_order = kt_cmp(&last, last_ts, &key, ts) == Ordering::Less;
     assert!(b.enforce_sort_order(&key, ts).is_ok() == in_order, "sort-order guard accepts exactly strictly increasing (key asc, timestamp desc)");
@@ -49,16 +51,17 @@ fn reject<const LL: usize, const LK: usize>(t: &[u8]) {
     assert!(r.is_err(), "out-of-order entry is rejected");
     assert!(b.buffer.len() == 3 && b.buffer[0] == buf[0] && b.buffer[1] == buf[1] && b.buffer[2] == buf[2], "rejected entry leaves the buffer unchanged");
     assert!(b.last_key.len() == LL && b.last_timestamp == last_ts, "rejected entry leaves the last key unchanged");
-    assert!(b.restarts.len() == 1 && b.bytes_since_restart == 3 && b.key_value_pairs_since_restart == 1, "rejected entry leaves the restart state unchanged");
-    vcover!(kt_cmp(&last, last_ts, &key, ts) == Ordering::Equal, "duplicate (key, timestamp)");
+    assert!(b.restarts.len() == 1 && b.bytes_since_restart == bsr && b.key_value_pairs_since_restart == kvsr, "rejected entry leaves the restart state unchanged");
+    vcover!(b.should_restart(), "a restart was due when the entry was rejected");
+    vcover!(LL != LK || kt_cmp(&last, last_ts, &key, ts) == Ordering::Equal, "duplicate (key, timestamp)");
     vcover!(LL != LK || (last == key[..] && ts > last_ts), "same key, newer timestamp after older");
     vcover!(is_del, "tombstone");
     core::mem::forget(b);
 }
-harness_e!(reject_unordered_1_1, 23, |t| { reject::<1, 1>(t) });
-harness_e!(reject_unordered_2_1, 24, |t| { reject::<2, 1>(t) });
-harness_e!(reject_unordered_2_2, 25, |t| { reject::<2, 2>(t) });
-harness_e!(reject_unordered_0_0, 21, |t| { reject::<0, 0>(t) });
+harness_e!(reject_unordered_1_1, 39, |t| { reject::<1, 1>(t) });
+harness_e!(reject_unordered_2_1, 40, |t| { reject::<2, 1>(t) });
+harness_e!(reject_unordered_2_2, 41, |t| { reject::<2, 2>(t) });
+harness_e!(reject_unordered_0_0, 37, |t| { reject::<0, 0>(t) });
 
 harness_e!(reject_oversize, 9, |t| {
     let mut t = Tape::new(t);
